@@ -401,9 +401,9 @@ def run_check(run, tier, seed, shard):
     run.assume('inputs are harness-poked undriven wires; within one clk(n) call they are constant, so splittings are compared with inputs changing only at shared call boundaries')
     quick = tier == 'quick'
     stats = {}
-    n_designs = 264 if quick else 4800
+    n_designs = 264 if quick else 12000
     cap = 120 if quick else 500
-    budget = 70 if quick else 800
+    budget = 400 if quick else 2400
     t0 = time.time()
     shapes = netgen.SEQ_SHAPES
     for i in shard_slice(range(n_designs), shard):
@@ -441,7 +441,7 @@ def post_merge(run, tier, seed):
 
 
 def replay(run, case):
-    c = case['case']
+    c = netgen.dehex(case['case'])
     plan = c['plan']
     hist = c['hist']
     stats = {}
